@@ -5,6 +5,7 @@ import (
 	"github.com/modernizing/coca/pkg/domain/core_domain"
 	"io/ioutil"
 	"log"
+	"sort"
 	"strings"
 )
 
@@ -25,7 +26,14 @@ func (j *RemoveMethodApp) Refactoring(conf string) {
 	startParse(parsedDeps, parsedChange)
 }
 
+type renameEdit struct {
+	node   core_domain.CodeDataStruct
+	method core_domain.CodeFunction
+	info   *support.PackageClassInfo
+}
+
 func startParse(nodes []core_domain.CodeDataStruct, relates []support.RefactorChangeRelate) {
+	var edits []renameEdit
 	for _, pkgNode := range nodes {
 		for _, related := range relates {
 			oldInfo := support.BuildMethodPackageInfo(related.OldObj)
@@ -34,7 +42,7 @@ func startParse(nodes []core_domain.CodeDataStruct, relates []support.RefactorCh
 			if pkgNode.Package+pkgNode.NodeName == oldInfo.Package+oldInfo.Class {
 				for _, method := range pkgNode.Functions {
 					if method.Name == oldInfo.Method {
-						updateSelfRefs(pkgNode, method, newInfo)
+						edits = append(edits, renameEdit{pkgNode, method, newInfo})
 					}
 				}
 			}
@@ -43,12 +51,25 @@ func startParse(nodes []core_domain.CodeDataStruct, relates []support.RefactorCh
 				for _, methodCall := range method.FunctionCalls {
 					if methodCall.Package+methodCall.NodeName == oldInfo.Package+oldInfo.Class {
 						if methodCall.FunctionName == oldInfo.Method {
-							updateSelfRefs(pkgNode, methodCallToMethodModel(methodCall), newInfo)
+							edits = append(edits, renameEdit{pkgNode, methodCallToMethodModel(methodCall), newInfo})
 						}
 					}
 				}
 			}
 		}
+	}
+
+	// rewrite from the end of each file towards its start, so that the columns of the
+	// sites that are still to be rewritten on the same line stay valid
+	sort.SliceStable(edits, func(i, j int) bool {
+		a, b := edits[i].method.Position, edits[j].method.Position
+		if a.StartLine != b.StartLine {
+			return a.StartLine > b.StartLine
+		}
+		return a.StartLinePosition > b.StartLinePosition
+	})
+	for _, edit := range edits {
+		updateSelfRefs(edit.node, edit.method, edit.info)
 	}
 }
 
